@@ -86,7 +86,7 @@ return:是否解析成功
 */
 bool parseOpts(char c, vpak_t *res)
 {
-    int tnum;
+    long tnum;
     size_t fsize = 0;
     switch (c)
     {
@@ -163,7 +163,13 @@ bool parseOpts(char c, vpak_t *res)
     case 1:
         if (res->ctype == -1)
         {
-            res->ctype = atoi(optarg);
+            tnum = strtol(optarg, NULL, 10);
+            if (tnum != (int)tnum || !check_ctype((int)tnum))
+            {
+                strlog("Error :", "Wrong ctype");
+                return false;
+            }
+            res->ctype = tnum;
             printCryptMode(res->ctype);
         }
         else
@@ -175,7 +181,13 @@ bool parseOpts(char c, vpak_t *res)
     case 2:
         if (res->htype == -1)
         {
-            res->htype = atoi(optarg);
+            tnum = strtol(optarg, NULL, 10);
+            if (tnum != (int)tnum || !check_htype((int)tnum))
+            {
+                strlog("Error :", "Wrong htype");
+                return false;
+            }
+            res->htype = tnum;
             printHashMode(res->htype);
         }
         else
